@@ -528,10 +528,18 @@ Section MixedLazy.
   Qed.
 
   (* p = makeBinding / makeBoundProperty(expression) for a fresh p, immediately or through an explicit evaluator *)
-  Lemma ML_bind_fresh fuel w p e m w' :
+  (* the world w7 in which the new binding is installed and evaluated, just before setHelper(p, its value) *)
+  Lemma bind_fresh_shape fuel w p e m w' :
     ML w -> NOEMIT w -> lookup (w_props w) p = None ->
     (match m with MImmediate => True | MEvaluator e0 => exists id, lookup (w_bevs w) e0 = Some id /\ id <> 0 end) ->
-    step1 fn rtl fuel w (PBind p e m) = (w', None) -> LSIMP w' /\ MS w' /\ NOACT w'.
+    step1 fn rtl fuel w (PBind p e m) = (w', None) ->
+    exists w7 v b ep st0 ls,
+      set_helper fn rtl fuel w7 p v = (w', None) /\ ML w7 /\
+      b = length (w_binds w) /\ (forall c, c <> b -> bview w7 c = bview w c) /\ bview w7 b = Some (ls, Some p) /\
+      (forall lf y, In lf ls -> lf_tg lf = Some y -> lookup (w_props w) y <> None) /\
+      nth_error (w_evps w) ep = Some st0 /\
+      w_evps w7 = upd (w_evps w) ep {| ep_registry := ep_registry st0 ++ [(S (ep_next st0), b)]; ep_next := S (ep_next st0) |} /\
+      (forall y, lookup (w_props w7) y <> None <-> (y = p \/ lookup (w_props w) y <> None)).
   Proof.
     intros HML HNE Hp Hmode H. pose proof HML as (Hinv & Hna & HS & HM). cbn [step1] in H.
     destruct (make_binding fn rtl w e m) as [[w1 b]|x] eqn:Hm; [|discriminate H].
@@ -610,8 +618,44 @@ Section MixedLazy.
         intros y lid Hi. unfold envof, wn; cbn [set_props w_props]. rewrite lookup_bind. destruct (Nat.eqb_spec y p) as [->|]; [destruct (Tnp p lid Hi eq_refl)|].
         pose proof (Env1 y) as E1. unfold envof in E1. symmetry. exact E1. }
     destruct ML7 as (HS7 & HM7).
-    destruct (mixed_set_helper_keeps_sound fuel w7 p v w' Hinv7 Hna7 HS7 HM7 H) as (_ & A2 & A3 & A4 & _). auto.
+    (* the registry *)
+    assert (Hevps : exists ep st0, nth_error (w_evps w) ep = Some st0 /\
+              w_evps w1 = upd (w_evps w) ep {| ep_registry := ep_registry st0 ++ [(S (ep_next st0), b)]; ep_next := S (ep_next st0) |}).
+    { clear - Hm. unfold make_binding in Hm. destruct (match m with MImmediate => Some 0 | MEvaluator ev => lookup (w_bevs w) ev end) as [ep|]; [|discriminate Hm].
+      destruct (nth_error (w_evps w) ep) as [st0|] eqn:Hst; [|discriminate Hm].
+      destruct (build fn rtl w (length (w_binds w)) 0 e) as [[[[w0 root] n1]|]|ex] eqn:Hb; try discriminate Hm.
+      inversion Hm; subst w1 b. destruct (PropReg.build_binds fn rtl _ _ _ _ _ _ _ Hb) as [E1 _].
+      exists ep, st0. split; [exact Hst|]. cbn [set_binds set_evps w_evps]. rewrite E1. reflexivity. }
+    destruct Hevps as (ep & st0 & Hst0 & Hev1).
+    exists w7, v, b, ep, st0, (leaves (b_root xb)).
+    split; [exact H|]. split; [exact (conj Hinv7 (conj Hna7 (conj HS7 HM7)))|]. split; [exact Eb|].
+    assert (BV7 : forall c, bview w7 c = if Nat.eqb b c then Some (leaves (b_root xb), Some p) else bview w1 c).
+    { intros c. unfold bview. rewrite G7. destruct (Nat.eqb_spec b c) as [<-|Hne]; [cbn [bind_with_root xb3 bind_with_target b_root b_target]; rewrite Hl; reflexivity|reflexivity]. }
+    split; [|split; [|split; [|split; [exact Hst0|split]]]].
+    - intros c Hc. rewrite BV7. destruct (Nat.eqb_spec b c); [congruence|]. unfold bview. rewrite (Gold c Hc). reflexivity.
+    - rewrite BV7, Nat.eqb_refl. reflexivity.
+    - intros lf y Hlf Htgy.
+      assert (Hleaf : has_leaf w1 b lf) by (exists (leaves (b_root xb)), None; split; [unfold bview; rewrite Hxb, Htg; reflexivity|exact Hlf]).
+      pose proof (pi_leafx _ _ _ _ _ _ _ Hinv1 b lf y Hleaf Htgy) as Hex. unfold pview in Hex.
+      pose proof (Gv y) as Evy. unfold values in Evy. destruct (lookup (w_props w1) y) eqn:E1y; [|exfalso; apply Hex; reflexivity].
+      destruct (lookup (w_props w) y); [discriminate|discriminate Evy].
+    - change (w_evps w7) with (w_evps (log_fns lg (put_bind w6 b (bind_with_root xb3 t)))). rewrite (proj1 (PropReg.log_fns_evps lg _)). exact Hev1.
+    - intros y. rewrite L7. destruct (Nat.eqb_spec y p) as [->|Hne]; [split; [intros _; left; reflexivity|intros _; discriminate]|].
+      unfold wn; cbn [set_props w_props]. rewrite lookup_bind. destruct (Nat.eqb_spec y p); [contradiction|].
+      pose proof (Gv y) as Evy. unfold values in Evy. split.
+      + intros Hy. right. destruct (lookup (w_props w1) y); [|contradiction]. destruct (lookup (w_props w) y); [discriminate|discriminate Evy].
+      + intros [Hy|Hy]; [contradiction|]. destruct (lookup (w_props w) y); [|contradiction]. destruct (lookup (w_props w1) y); [discriminate|discriminate Evy].
   Qed.
+
+  Lemma ML_bind_fresh fuel w p e m w' :
+    ML w -> NOEMIT w -> lookup (w_props w) p = None ->
+    (match m with MImmediate => True | MEvaluator e0 => exists id, lookup (w_bevs w) e0 = Some id /\ id <> 0 end) ->
+    step1 fn rtl fuel w (PBind p e m) = (w', None) -> LSIMP w' /\ MS w' /\ NOACT w'.
+  Proof.
+    intros HML HNE Hp Hmode H. destruct (bind_fresh_shape fuel w p e m w' HML HNE Hp Hmode H) as (w7 & v & b & ep & st0 & ls & H7 & (Hinv7 & Hna7 & HS7 & HM7) & _).
+    destruct (mixed_set_helper_keeps_sound fuel w7 p v w' Hinv7 Hna7 HS7 HM7 H7) as (_ & A2 & A3 & A4 & _). auto.
+  Qed.
+
   (* an observer that does not act is connected *)
   Lemma ML_observe fuel w p k label h w' :
     ML w -> step1 fn rtl fuel w (PObserve p k label h None) = (w', None) -> LSIMP w' /\ MS w' /\ NOACT w'.
